@@ -17,8 +17,9 @@ Notation FP := Build_fp.
 Notation PF := Build_ffp.
 
 (** A field of a base class: name, validators; default present, nothing else. *)
-Definition BA (n : string) (vs : list sym) : battr :=
-  {| ba_name := n; ba_default := true; ba_vals := vs; ba_convs := []; ba_hook := OsNone;
+Definition BA (n : string) (vs : list sym) (t : option ty) : battr :=
+  {| ba_name := n; ba_default := true; ba_vals := vs; ba_convs := []; ba_cann := None;
+     ba_type := t; ba_hook := OsNone;
      ba_kw := false; ba_init := true; ba_meta := [] |}.
 
 (** ** Boolean equalities *)
@@ -38,6 +39,14 @@ Definition kind_eqb (a b : kind) : bool :=
   | _, _ => false
   end.
 
+Definition ty_eqb (a b : ty) : bool :=
+  match a, b with
+  | TStr x, TStr y | TObj x, TObj y => String.eqb x y
+  | _, _ => false
+  end.
+Definition ann_eqb (a b : string * option ty) : bool :=
+  String.eqb (fst a) (fst b) && option_eqb ty_eqb (snd a) (snd b).
+
 Definition asg_eqb (a b : asg) : bool :=
   match a, b with
   | AFrozen, AFrozen => true
@@ -47,7 +56,8 @@ Definition asg_eqb (a b : asg) : bool :=
 
 Definition ffp_eqb (a b : ffp) : bool :=
   String.eqb (p_n a) (p_n b) && Bool.eqb (p_kw a) (p_kw b) && Bool.eqb (p_d a) (p_d b) &&
-  Bool.eqb (p_init a) (p_init b) && str_list_eqb (p_v a) (p_v b) && str_list_eqb (p_c a) (p_c b) &&
+  Bool.eqb (p_init a) (p_init b) && option_eqb ty_eqb (p_ty a) (p_ty b) &&
+  str_list_eqb (p_v a) (p_v b) && str_list_eqb (p_c a) (p_c b) &&
   str_list_eqb (p_m a) (p_m b) && Bool.eqb (p_inh a) (p_inh b).
 
 Definition sig_eqb (a b : string * bool * bool) : bool :=
@@ -62,6 +72,7 @@ Definition fp_eqb (a b : fp) : bool :=
   kind_eqb (fp_hash a) (fp_hash b) && kind_eqb (fp_eq a) (fp_eq b) &&
   kind_eqb (fp_init a) (fp_init b) &&
   option_eqb (list_eqb sig_eqb) (fp_sig a) (fp_sig b) &&
+  option_eqb (list_eqb ann_eqb) (fp_ann a) (fp_ann b) &&
   Bool.eqb (fp_pre a) (fp_pre b) && Bool.eqb (fp_post a) (fp_post b) &&
   Bool.eqb (fp_owninit a) (fp_owninit b) &&
   option_eqb Bool.eqb (fp_hashes a) (fp_hashes b) &&
@@ -95,17 +106,18 @@ Definition set_eqb (a b : list string) : bool :=
 (** Metadata keys inside fingerprints are sorted by the harness as well. *)
 Definition ffp_eqb_m (a b : ffp) : bool :=
   String.eqb (p_n a) (p_n b) && Bool.eqb (p_kw a) (p_kw b) && Bool.eqb (p_d a) (p_d b) &&
-  Bool.eqb (p_init a) (p_init b) && str_list_eqb (p_v a) (p_v b) && str_list_eqb (p_c a) (p_c b) &&
+  Bool.eqb (p_init a) (p_init b) && option_eqb ty_eqb (p_ty a) (p_ty b) &&
+  str_list_eqb (p_v a) (p_v b) && str_list_eqb (p_c a) (p_c b) &&
   set_eqb (p_m a) (p_m b) && Bool.eqb (p_inh a) (p_inh b).
 
 Definition fp_eqb_m (a b : fp) : bool :=
   list_eqb ffp_eqb_m (fp_fields a) (fp_fields b) &&
   fp_eqb {| fp_fields := []; fp_hash := fp_hash a; fp_eq := fp_eq a; fp_init := fp_init a;
-            fp_sig := fp_sig a; fp_pre := fp_pre a; fp_post := fp_post a;
+            fp_sig := fp_sig a; fp_ann := fp_ann a; fp_pre := fp_pre a; fp_post := fp_post a;
             fp_owninit := fp_owninit a; fp_hashes := fp_hashes a; fp_initconv := fp_initconv a;
             fp_assign := fp_assign a |}
          {| fp_fields := []; fp_hash := fp_hash b; fp_eq := fp_eq b; fp_init := fp_init b;
-            fp_sig := fp_sig b; fp_pre := fp_pre b; fp_post := fp_post b;
+            fp_sig := fp_sig b; fp_ann := fp_ann b; fp_pre := fp_pre b; fp_post := fp_post b;
             fp_owninit := fp_owninit b; fp_hashes := fp_hashes b; fp_initconv := fp_initconv b;
             fp_assign := fp_assign b |}.
 
@@ -125,7 +137,8 @@ Record case := {
   c_alone : list fprint;             (* the same definitions, each without the other ones *)
   c_lists : list (list sym);         (* the caller's containers at the end of the history *)
   c_metas : list (list string);
-  c_dicts : list pydict }.
+  c_dicts : list pydict;
+  c_noshare : bool }.                (* no Attribute OBJECT is shared between two classes *)
 
 
 Definition model_full (c : case) : world := run (empty_world (c_counter c)) (c_ops c).
@@ -148,7 +161,9 @@ Definition check_case (c : case) : bool :=
   (* ... and the caller's containers hold what the caller put there *)
   list_eqb str_list_eqb (w_lists w) (c_lists c) &&
   list_eqb set_eqb (w_metas w) (c_metas c) &&
-  list_eqb pydict_eqb (w_dicts w) (c_dicts c).
+  list_eqb pydict_eqb (w_dicts w) (c_dicts c) &&
+  (* every class owns its Attribute objects (what resolve_types relies on) *)
+  c_noshare c.
 
 Lemma dexc_eqb_spec a b : dexc_eqb a b = true <-> a = b.
 Proof. destruct a, b; cbn; split; intros H; try reflexivity; try discriminate. Qed.
